@@ -176,7 +176,7 @@ func (m *joinMon) onDeliver(w *vrt.World, ev *vrt.Event) {
 		return
 	}
 	m.sizes = append(m.sizes, len(s))
-	if m.cfg.Stop == "stop" || m.cfg.Stop == "cancel" {
+	if isRough(m.cfg) {
 		// rough termination: what is delivered is an in-order duplicate-free
 		// subsequence of what was written (C16); completeness is not required
 		for _, v := range s {
@@ -366,7 +366,7 @@ func newJoin(c Cfg, w *vrt.World) *explore.Instance {
 				m.rel = vrt.NameChan[struct{}](released, "released")
 			}
 			o := join1.Opts[int]{Input: in, JoinSize: uint(c.J), Released: released, Timeout: time.Duration(c.Timeout * unit), TimeoutInaccuracy: c.Inacc}
-			if c.Stop == "cancel" {
+			if c.Stop == "cancel" || c.Stop == "both" {
 				o.Ctx, cancel = vcontext.WithCancel(vcontext.Background())
 			}
 			d, err := join1.New(o)
@@ -491,17 +491,19 @@ func newJoin(c Cfg, w *vrt.World) *explore.Instance {
 			consumerDone = true
 		})
 
-		if c.Stop == "stop" || c.Stop == "cancel" {
+		if c.Stop == "stop" || c.Stop == "both" {
 			vrt.Spawn("stopper", func() {
-				if c.Stop == "stop" {
-					ad.stop()
-					m.stopReturned = true
-					if !vrt.ChanClosed(ad.out) {
-						m.f.fail("C16", "join Stop() returned but the output channel is not closed")
-					}
-				} else {
-					cancel()
+				ad.stop()
+				m.stopReturned = true
+				if !vrt.ChanClosed(ad.out) {
+					m.f.fail("C16", "join Stop() returned but the output channel is not closed")
 				}
+				m.stopped = true
+			})
+		}
+		if c.Stop == "cancel" || c.Stop == "both" {
+			vrt.Spawn("canceller", func() {
+				cancel()
 				m.stopped = true
 			})
 		}
@@ -515,7 +517,7 @@ func newJoin(c Cfg, w *vrt.World) *explore.Instance {
 		if out == vrt.Spin {
 			return c.Prop + ": livelock: " + w.SpinInfo
 		}
-		rough := c.Stop == "stop" || c.Stop == "cancel"
+		rough := isRough(c)
 		if !rough {
 			if out != vrt.Done {
 				return fmt.Sprintf("%s: the system does not terminate: %s", c.Prop, w.Describe())
@@ -529,7 +531,7 @@ func newJoin(c Cfg, w *vrt.World) *explore.Instance {
 		} else {
 			// rough stop: the stopper must have returned, the library threads must be gone
 			for _, t := range w.Threads {
-				if t.Name == "stopper" && !t.Done() {
+				if (t.Name == "stopper" || t.Name == "canceller") && !t.Done() {
 					return fmt.Sprintf("C16: Stop()/cancel did not complete: %s", w.Describe())
 				}
 			}
